@@ -242,10 +242,15 @@ Lemma known_panics_are_panics :
   validate (I_MsgUpdateParams {| up_authority := BGood 1; up_chain := ChTron; up_params := params_absent_power_change |}) = VPanic /\
   validate (I_MsgBridgeCall bridge_call_absent_value) = VPanic /\
   validate (I_MsgBridgeCall bridge_call_absent_coin_amount) = VPanic /\
-  validate (I_MsgConfirm {| mw_confirm := AnyNil |}) = VPanic /\
+  validate (I_MsgConfirm {| mw_confirm := AnyNil |}) = VPanic.
+Proof. repeat split; vm_compute; reflexivity. Qed.
+
+(* two more inputs make the transcribed Go functions panic, but no decoder can produce them: go-ethereum's abi package
+   always allocates the *big.Int of a uint256, and the IBC memo is JSON, where an absent "value" becomes a fresh zero Int *)
+Lemma decoder_excluded_classes :
   validate (I_CrosschainArgs (CA_BridgeCall true BgNil 0 0 false)) = VPanic /\
   validate (I_IbcCallEvmPacket {| ic_to := XEth; ic_value := INil; ic_data := HGood |}) = VPanic.
-Proof. repeat split; vm_compute; reflexivity. Qed.
+Proof. split; vm_compute; reflexivity. Qed.
 
 (* arguments decoded by go-ethereum's abi package never contain a nil *big.Int: precompile argument validation is total on them *)
 Lemma precompile_args_total :
